@@ -8,15 +8,18 @@ RandomW.tla and the trace modules TracePCGrad / TraceGradDrop / TraceFrankWolfe.
      combination of projection orders (hidden choice = torch.randperm), the weight-space algorithm on the
      Gramian equals, after every projection and at the end, the vector-space definition "row i successively
      projected off each row it CURRENTLY conflicts with"; no conflict => plain sum.
-   * GradDrop: for every matrix, leak vector over {0,1/4,1/2,1}, f and reachable sign choice, the row loop
-     equals "kept-sign entries + leaked share of the others" per column.
+   * GradDrop: for every matrix, leak vector over {0,1/4,1/2,1} and over the non-dyadic {0,1/3,2/7,7/10,1}, f and
+     reachable sign choice, the row loop equals "kept-sign entries + leaked share of the others" per column; a
+     further call on the same object starts where a fresh object starts (Recall) and no call changes the leak.
    * FrankWolfe (MGDA): exact iterates; alpha on the simplex, |J^T alpha|^2 monotone and never above the
      mean's, exact line search, two rows: closed form after one step; scale-free.
    * CAGradSym: exact mean, Pareto-stationarity (active-set enumeration), symmetric instances, conditioning; the same
      facts on the BADLY SCALED family J = D_r J0 D_c (rows / columns scaled by 2^-P, exponents carried symbolically
      by EpsScale.tla, valid for every P >= needP; refinement of the integer analysis on unscaled instances).
 2. SPEC -> CODE: every exported scenario is executed on the real aggregators – PCGrad with torch.randperm
-   FORCED to the scripted permutations, GradDrop with torch.rand FORCED to realise every sign choice,
+   FORCED to the scripted permutations, GradDrop with torch.rand FORCED to realise every sign choice (and, ONE
+   object per scenario, through the model's dtype histories float32>float64, float64>float32, bfloat16>float32>
+   float64, float16>float64 with the leak given in float64, every call judged within its own dtype's allowance),
    MGDA(epsilon, max_iters=K) on 2^e J against the exact K-step iterate (argmin ties = candidate set), all
    with (rationalised) equality; MGDA() defaults, CAGrad(c) and Random at predicate level on the instances
    the specifications enumerate (c = 0 => mean; |A - g0| = c|g0| within a derived allowance; zero only
@@ -99,6 +102,17 @@ def mc_jobs(ctx: Ctx, m4_file: str, fw_file: str, bs_file: str | None = None) ->
         gd = gd_base.replace("{121, 212, 312, 221}", "{121, 221, 321, 212, 312}").replace('{"id", "half"}', '{"id", "sq", "half"}') \
             .replace("SampleMod = 4", "SampleMod = 3").replace("SamplePick = 0", f"SamplePick = {ctx.seed % 3}")
     jobs.append({"name": "graddrop", "module": "GradDrop", "cfg": gd, "part": "graddrop", "workers": 6})
+    # leaks that no binary float format represents (1/3, 2/7, 7/10): exact rationals in the model
+    if '{121, 212, 312, 221}' not in gd_base or '"full"' not in gd_base or "SampleMod = 4" not in gd_base:
+        raise MachineryError("MC_GradDrop_quick.cfg: Shapes / LeakMode / SampleMod lines not found")
+    nd = gd_base.replace('"full"', '"nd"')
+    if quick:
+        nd = nd.replace("{121, 212, 312, 221}", "{212, 311}").replace("SampleMod = 4", "SampleMod = 8") \
+            .replace("SamplePick = 0", f"SamplePick = {ctx.seed % 8}")
+    else:
+        nd = nd.replace("{121, 212, 312, 221}", "{212, 312, 221}").replace('{"id", "half"}', '{"id", "sq", "half"}') \
+            .replace("SampleMod = 4", "SampleMod = 6").replace("SamplePick = 0", f"SamplePick = {ctx.seed % 6}")
+    jobs.append({"name": "graddrop_nondyadic_leak", "module": "GradDrop", "cfg": nd, "part": "graddrop", "workers": 6})
     fw_base = (SPEC_DIR / "MC_FrankWolfe_quick.cfg").read_text()
     fw_safety = _drop(fw_base.replace("FairSpec", "Spec"), "PROPERTY Terminates")
     jobs.append({"name": "fw_m123_k2", "module": "FrankWolfe", "cfg": fw_safety if quick else fw_base, "part": "mgda"})
@@ -264,8 +278,34 @@ def graddrop_judge(ctx: Ctx, scn: dict, v: dict) -> None:
                        f"the column plus the leaked share of the others (candidates {scn['cand']})", payload)
 
 
+def graddrop_history_judge(ctx: Ctx, scn: dict, v: dict) -> None:
+    """One object through a dtype history (GD.replay_history): every call judged on its own."""
+    ctx.count("graddrop_history_calls", v.get("calls", 0))
+    ctx.count("graddrop_history_calls_on_the_other_sign_not_judged", v.get("other_sign", 0))
+    if v["status"] == "ok":
+        return
+    key = f"graddrop-history:{scn['J']}:leak={scn['leak']}:f={scn['f']}:{scn['choice']}:{'>'.join(v['hist'])}"
+    payload = {"part": "graddrop", "kind": "history", "scenario": scn, "idx": v["idx"]}
+    leak = [str(Fraction(*p)) for p in scn["leak"]]
+    if v["status"] == "raised":
+        ctx.violation(key, f"GradDrop(leak={leak}) raised in the dtype history {v['hist']} on J={scn['J']}: {v['what']}", payload)
+        return
+    ctx.violation(key, f"ONE GradDrop(f={scn['f']}, leak={leak} given in float64) object called on J={scn['J']} in the dtypes "
+                       f"{v['hist']} (sign choice {scn['choice']} forced each time): call {v['pos'] + 1} ({v['dtype']}) returned "
+                       f"{v['float_out']}; coordinate(s) {v['cols']} are neither the positive nor the negative entries of the "
+                       f"column plus the leaked share of the others within {v.get('tol')} (candidates {scn['cand']}); "
+                       f"{v.get('why', '')}", payload)
+
+
 def graddrop_replay(ctx: Ctx, scns: list[dict]) -> None:
     results = pmap(GD.replay_scenario, [(s, i) for i, s in enumerate(scns)], chunksize=64)
+    hresults = pmap(GD.replay_history, [(s, i) for i, s in enumerate(scns)], chunksize=64)
+    for s, v in zip(scns, hresults):
+        ctx.evaluations += v.get("calls", 0)
+        graddrop_history_judge(ctx, s, v)
+    ctx.count("graddrop_scenarios_with_non_dyadic_leak", sum(1 for s in scns if not s["dyadic"]))
+    if scns and not any((not s["dyadic"]) for s in scns):
+        raise MachineryError("no GradDrop scenario with a non-dyadic leak was exported")
     for s, v in zip(scns, results):
         ctx.evaluations += 2
         ctx.traces += 1
@@ -538,6 +578,8 @@ def do_replay(ctx: Ctx, rec: dict) -> None:
         pcgrad_trace(ctx, [e2])
     elif part == "graddrop" and p["kind"] == "scenario":
         graddrop_judge(ctx, p["scenario"], GD.replay_scenario((p["scenario"], p.get("idx", 0))))
+    elif part == "graddrop" and p["kind"] == "history":
+        graddrop_history_judge(ctx, p["scenario"], GD.replay_history((p["scenario"], p.get("idx", 0))))
     elif part == "graddrop":
         e = p["episode"]
         leak = [Fraction(*q) for q in e["leak"]] if e["leak_given"] else None
